@@ -68,6 +68,39 @@ theorem unexpected_type_refused (sd mr ty ml eh ht pl eb r2 u2 : Int) (hty : ty 
   simp only [apply_ite (fun o : KOut => o.ret = 6 ∧ o.count "malloc" = 0)]
   kchain
 
+/-! ## `m_msg_send` (C13, C01, C14) -/
+
+/-- number of header packs (`_msg_pack (m, MUNGE_MSG_HDR, hdr, 11)`) among the events -/
+def hdrPacks (o : KOut) : Int := ((o.events.filter (· == ("_msg_pack", [1, 11]))).length : Nat)
+
+/-- **The header is packed afresh on every send - also when the packed body is reused** (a retried request is the same
+    message object sent again with a new retry count in its header: the retry count reaches the wire because the 11 header
+    bytes are rebuilt each time; the body, which does not contain it, may be cached).  Every successful send packs the
+    header exactly once, immediately before the single write, and that write moved 11 + body-length bytes. -/
+theorem header_packed_on_every_send (sd ct pp cpl pic mr ty ml rl rp rp2 ew rw : Int) (hty : ty ≠ 1)
+    (h : (m_msg_send sd ct pp cpl pic mr ty ml rl rp rp2 ew rw).ret = 0) :
+    hdrPacks (m_msg_send sd ct pp cpl pic mr ty ml rl rp rp2 ew rw) = 1 ∧
+    (m_msg_send sd ct pp cpl pic mr ty ml rl rp rp2 ew rw).count "fd_timed_write_iov" = 1 ∧
+    (m_msg_send sd ct pp cpl pic mr ty ml rl rp rp2 ew rw).events.getLast? = some ("fd_timed_write_iov", [2]) := by
+  revert h
+  unfold m_msg_send
+  simp only [apply_ite (fun o : KOut => o.ret = 0 → (hdrPacks o = 1 ∧ o.count "fd_timed_write_iov" = 1 ∧
+    o.events.getLast? = some ("fd_timed_write_iov", [2])))]
+  repeat' (first | with_reducible apply ite_intro | intro _)
+  all_goals (try simp only [wrapU32, wrapS32] at *)
+  all_goals (first | omega | (simp [hdrPacks, KOut.count, hty] <;> omega) | (simp [hdrPacks, KOut.count, hty]))
+
+/-- **The send-side length gate**: with a positive limit, a message whose packed body exceeds it is not written at all -
+    `EMUNGE_BAD_LENGTH`, no write (a payload too large to be carried gives a length error, never truncated data). -/
+theorem send_length_gate (sd ct pp cpl pic mr ty ml rl rp rp2 ew rw : Int)
+    (hml : 0 < ml ∧ ml ≤ 2147483647) (hnew : pp = 0) (hrl : ml < rl ∧ rl ≤ 2147483647) (hmr : mr ≠ 0) (hrp : rp = 0) :
+    let o := m_msg_send sd ct pp cpl pic mr ty ml rl rp rp2 ew rw
+    o.ret = 3 ∧ o.count "fd_timed_write_iov" = 0 := by
+  dsimp only
+  unfold m_msg_send
+  simp only [apply_ite (fun o : KOut => o.ret = 3 ∧ o.count "fd_timed_write_iov" = 0)]
+  kchain
+
 /-- non-vacuity: a 20-byte DEC_REQ under the 1 MiB limit is received; a 2 MiB announcement is refused at the gate -/
 example : (m_msg_recv 3 1 0 1048576 0 11 4 20 0 0 20 0).ret = 0 := by decide
 example : (m_msg_recv 3 1 0 1048576 0 11 4 2097152 0 0 20 0).ret = 3 := by decide
